@@ -36,8 +36,6 @@ func fixedCRS(label string) sampling.PRNG {
 
 var floodNoise = ring.DiscreteGaussian{Sigma: 3.2 * 8, Bound: 6 * 3.2 * 8}
 
-const dirtyOnly = "dirty"
-
 func sharesOut(alloc func(e *Env) interface{}) *OutSpec {
 	return &OutSpec{Shapes: []Shape{ShapeDirtyWords}, New: func(e *Env, in []interface{}, dDeg, dLvl int) interface{} {
 		if dDeg != 0 || dLvl != 0 {
@@ -58,14 +56,14 @@ func multipartyTargets() []*Target {
 		return m
 	}
 	envs := []string{"rlwe", "rlwe-coef"}
-	skK := func(names ...string) func(e *Env, g *Gen) []interface{} { return nil }
-	_ = skK
 
 	// ---- PublicKeyGenProtocol
 	{
 		type P = multiparty.PublicKeyGenProtocol
 		newP := func(e *Env) interface{} { return multiparty.NewPublicKeyGenProtocol(e.RLWE) }
-		crp := func(e *Env) multiparty.PublicKeyGenCRP { return multiparty.NewPublicKeyGenProtocol(e.RLWE).SampleCRP(fixedCRS("cpk")) }
+		crp := func(e *Env) multiparty.PublicKeyGenCRP {
+			return multiparty.NewPublicKeyGenProtocol(e.RLWE).SampleCRP(fixedCRS("cpk"))
+		}
 		share := func(e *Env, g *Gen) multiparty.PublicKeyGenShare {
 			s := multiparty.NewPublicKeyGenProtocol(e.RLWE).AllocateShare()
 			g.FillAny(s)
@@ -101,13 +99,18 @@ func multipartyTargets() []*Target {
 	{
 		type P = multiparty.EvaluationKeyGenProtocol
 		newP := func(e *Env) interface{} { return multiparty.NewEvaluationKeyGenProtocol(e.RLWE) }
-		crp := func(e *Env) multiparty.EvaluationKeyGenCRP { return multiparty.NewEvaluationKeyGenProtocol(e.RLWE).SampleCRP(fixedCRS("evk")) }
+		crp := func(e *Env) multiparty.EvaluationKeyGenCRP {
+			return multiparty.NewEvaluationKeyGenProtocol(e.RLWE).SampleCRP(fixedCRS("evk"))
+		}
 		share := func(e *Env, g *Gen) multiparty.EvaluationKeyGenShare {
 			s := multiparty.NewEvaluationKeyGenProtocol(e.RLWE).AllocateShare()
 			g.FillAny(s)
 			return s
 		}
-		alloc := func(e *Env) interface{} { s := multiparty.NewEvaluationKeyGenProtocol(e.RLWE).AllocateShare(); return &s }
+		alloc := func(e *Env) interface{} {
+			s := multiparty.NewEvaluationKeyGenProtocol(e.RLWE).AllocateShare()
+			return &s
+		}
 		ts = append(ts, &Target{Name: "multiparty.EvaluationKeyGenProtocol", Envs: envs, Randomized: true, Type: reflect.TypeOf(P{}), New: newP, NotTabled: notTabled(nil),
 			Rows: []Row{
 				{Method: "GenShare", Doc: "generates a party's share in the EvaluationKey generation (on shareOut)",
@@ -136,7 +139,9 @@ func multipartyTargets() []*Target {
 	{
 		type P = multiparty.GaloisKeyGenProtocol
 		newP := func(e *Env) interface{} { return multiparty.NewGaloisKeyGenProtocol(e.RLWE) }
-		crp := func(e *Env) multiparty.GaloisKeyGenCRP { return multiparty.NewGaloisKeyGenProtocol(e.RLWE).SampleCRP(fixedCRS("gal")) }
+		crp := func(e *Env) multiparty.GaloisKeyGenCRP {
+			return multiparty.NewGaloisKeyGenProtocol(e.RLWE).SampleCRP(fixedCRS("gal"))
+		}
 		share := func(e *Env, g *Gen) multiparty.GaloisKeyGenShare {
 			s := multiparty.NewGaloisKeyGenProtocol(e.RLWE).AllocateShare()
 			g.FillAny(s)
@@ -181,7 +186,10 @@ func multipartyTargets() []*Target {
 			g.FillAny(s)
 			return s
 		}
-		alloc := func(e *Env) interface{} { _, s, _ := multiparty.NewRelinearizationKeyGenProtocol(e.RLWE).AllocateShare(); return &s }
+		alloc := func(e *Env) interface{} {
+			_, s, _ := multiparty.NewRelinearizationKeyGenProtocol(e.RLWE).AllocateShare()
+			return &s
+		}
 		type r1out struct {
 			EphSk *rlwe.SecretKey
 			Share *multiparty.RelinearizationKeyGenShare
@@ -340,7 +348,10 @@ func multipartyTargets() []*Target {
 			g.FillAny(s)
 			return s
 		}
-		alloc := func(e *Env) interface{} { s := multiparty.NewThresholdizer(e.RLWE).AllocateThresholdSecretShare(); return &s }
+		alloc := func(e *Env) interface{} {
+			s := multiparty.NewThresholdizer(e.RLWE).AllocateThresholdSecretShare()
+			return &s
+		}
 		ts = append(ts, &Target{Name: "multiparty.Thresholdizer", Envs: envs[:1], Randomized: true, NoScratch: true, Type: reflect.TypeOf(T{}), New: newT,
 			NotTabled: map[string]string{"AllocateThresholdSecretShare": "allocator"},
 			Rows: []Row{
